@@ -25,7 +25,7 @@ func runFault(prop string) *ShardResult {
 	res.Bounds["workload_len"] = maxLen
 	res.Bounds["configs"] = cfgs
 	res.Bounds["fault_kinds"] = []string{"clean", "after-effect", "short-write", "short-write reported as io.EOF"}
-	res.Bounds["fault_duration"] = []string{"transient", "persistent (same kind of step)", "every step of any kind until the call returns"}
+	res.Bounds["fault_duration"] = []string{"transient", "persistent (same kind of step)", "every step of any kind until the call returns", "transient with errno EINTR (clean and after-effect flavours)"}
 	alpha := func(m *core.Model) []core.Op {
 		ops := appendOps(m, [][]int{{4}, {4, 4}})
 		if m.Last > 0 {
@@ -78,8 +78,12 @@ func runFault(prop string) *ShardResult {
 				}
 				for at := 0; at < dry.FaultOps; at++ {
 					for _, kind := range []simdisk.FaultKind{simdisk.FaultClean, simdisk.FaultAfter, simdisk.FaultShort, simdisk.FaultShortEOF} {
-						for scope := 0; scope < 3; scope++ {
+						for scope := 0; scope < 4; scope++ {
 							pers := scope == 1
+							// scope 3: one failing step whose error is EINTR (a call interrupted by a signal)
+							if scope == 3 && kind != simdisk.FaultClean && kind != simdisk.FaultAfter {
+								continue
+							}
 							n++
 							if *fNShards > 1 && n%*fNShards != *fShard {
 								continue
@@ -89,6 +93,9 @@ func runFault(prop string) *ShardResult {
 								return
 							}
 							fp := &core.FaultPlan{At: at, Kind: kind, Persistent: pers, UntilReturn: scope == 2}
+							if scope == 3 {
+								fp.Errno = "EINTR"
+							}
 							if kind == simdisk.FaultShortEOF && scope != 0 {
 								continue
 							}
